@@ -21,7 +21,7 @@ from .values import (FALSE, NONE, TRUE, AbsList, AltV, BoundV, Const, FuncV, Lis
 
 from .icommon import (MAX_DEPTH, MAX_PATHS, PathAbort, _Break, _Continue, _Raise, _Return, _describe, _load,
                       _walk_own)
-from .interp_expr import ExprMixin
+from .interp_expr import ExprMixin, _Lazy
 from .interp_while import WhileMixin
 
 
@@ -337,8 +337,7 @@ class Interp(ExprMixin, WhileMixin):
             if isinstance(st.value, ast.Constant):
                 return
             if isinstance(st.value, ast.Yield):
-                v = self.eval(st.value.value, env, module) if st.value.value else NONE
-                self.list_append(env["__yield__"], v)
+                self.ev_Yield(st.value, env, module)
                 return
             if isinstance(st.value, ast.YieldFrom):
                 self.list_extend(env["__yield__"], self.eval(st.value.value, env, module))
@@ -404,16 +403,175 @@ class Interp(ExprMixin, WhileMixin):
                     self.event("mutate", target=_describe(base), op="del")
         elif isinstance(st, (ast.Global, ast.Nonlocal)):
             self.event("global_decl", names=list(st.names))
+        elif isinstance(st, ast.With) and len(st.items) == 1 and self._with_contextmanager(st, env, module):
+            pass
         elif isinstance(st, ast.With):
+            suppressed: List[str] = []
             for it in st.items:
                 v = self.eval(it.context_expr, env, module)
+                if isinstance(v, Sym) and v.op == "call" and isinstance(v.args[0], RefV) and v.args[0].qual == "contextlib.suppress":
+                    suppressed += [x.qual if isinstance(x, RefV) else repr(x) for x in v.args[1]]
                 if it.optional_vars is not None:
                     self.assign(it.optional_vars, Sym("enter", v), env, module)
-            self.exec_block(st.body, env, module)
+            if suppressed:
+                # with suppress(E): body   ==   try: body / except E: pass
+                saved = self.try_stack
+                self.try_stack = saved + [suppressed]
+                try:
+                    self.exec_block(st.body, env, module)
+                except _Raise as r:
+                    q = self.exc_class(r.exc)
+                    if not any(q is None or self.exc_isa(q, n) for n in suppressed):
+                        raise
+                finally:
+                    self.try_stack = saved
+            else:
+                self.exec_block(st.body, env, module)
+        elif isinstance(st, ast.Match):
+            self.exec_match(st, env, module)
         elif isinstance(st, ast.ClassDef):
             env[st.name] = Sym("localclass", st.name)
         else:
             raise AnalysisError(f"statement {type(st).__name__} is outside the supported subset", module.loc(st))
+
+    # ------------------------------------------------------------------------------------
+    # with <in-repo @contextmanager generator>(...): the generator's body runs around the block
+    # ------------------------------------------------------------------------------------
+    def _with_contextmanager(self, st: ast.With, env: Dict[str, V], module: Module) -> bool:
+        item = st.items[0]
+        call = item.context_expr
+        if not isinstance(call, ast.Call):
+            return False
+        try:
+            fv = self.eval(call.func, env, module)
+        except AnalysisError:
+            return False
+        fn = mod = None
+        selfarg: List[V] = []
+        cls = None
+        if isinstance(fv, FuncV) and isinstance(fv.fn, ast.FunctionDef):
+            fn, mod = fv.fn, fv.module
+        elif isinstance(fv, BoundV):
+            fn, mod, cls = fv.fn, fv.module, fv.cls
+            decos = [ast.unparse(d) for d in fn.decorator_list]
+            if "staticmethod" not in decos:
+                selfarg = [fv.obj]
+        if fn is None:
+            return False
+        decos = [ast.unparse(d).split(".")[-1] for d in fn.decorator_list]
+        if "contextmanager" not in decos:
+            return False
+        if any(isinstance(n, ast.Return) and n.value is not None for n in _walk_own(fn)):
+            raise AnalysisError("@contextmanager generator with a return value is outside the supported subset", mod.loc(fn))
+        args = self.eval_seq(call.args, env, module)
+        kwargs = {kw.arg: self.eval(kw.value, env, module) for kw in call.keywords if kw.arg is not None}
+        genv: Dict[str, V] = {}
+        self.bind_params(mod, fn, selfarg + list(args), kwargs, genv)
+        genv["__class__"] = RefV(cls) if cls else NONE
+        ran = {"body": False}
+
+        def body(yielded: V):
+            ran["body"] = True
+            if item.optional_vars is not None:
+                self.assign(item.optional_vars, yielded, env, module)
+            self.exec_block(st.body, env, module)
+
+        genv["__cm_body__"] = body
+        self.stack.append((self.fn_key(mod, fn), mod))
+        saved_try = self.try_stack
+        try:
+            try:
+                self.exec_block(fn.body, genv, mod)
+            except _Return as r:
+                if ran["body"] and "__cm_body__" not in genv and r.v is not None and not self._is_cm_own_return(r):
+                    raise
+                raise
+        finally:
+            self.stack.pop()
+            self.try_stack = saved_try
+        if not ran["body"]:
+            raise AnalysisError("@contextmanager generator did not yield on this path", mod.loc(fn))
+        return True
+
+    def _is_cm_own_return(self, r) -> bool:
+        return False
+
+    # ------------------------------------------------------------------------------------
+    # match statements: tried case by case, like the if/elif chain they abbreviate
+    # ------------------------------------------------------------------------------------
+    def exec_match(self, st: "ast.Match", env: Dict[str, V], module: Module):
+        subject = self.eval(st.subject, env, module)
+        for case in st.cases:
+            trial = dict(env)
+            if self.match_pattern(case.pattern, subject, trial, module):
+                if case.guard is not None and not self.truthy(self.eval(case.guard, trial, module), case.guard):
+                    continue
+                env.update(trial)
+                self.exec_block(case.body, env, module)
+                return
+
+    def match_pattern(self, pat, subject: V, env: Dict[str, V], module: Module) -> bool:
+        subject = self.resolve_alt(subject)
+        if isinstance(pat, ast.MatchAs):
+            if pat.pattern is not None and not self.match_pattern(pat.pattern, subject, env, module):
+                return False
+            if pat.name is not None:
+                env[pat.name] = subject
+            return True
+        if isinstance(pat, ast.MatchOr):
+            return any(self.match_pattern(p, subject, env, module) for p in pat.patterns)
+        if isinstance(pat, ast.MatchValue):
+            return self.equal(subject, self.eval(pat.value, env, module), False, _Lazy(pat.value))
+        if isinstance(pat, ast.MatchSingleton):
+            return self.equal(subject, Const(pat.value), True, f"is {pat.value}")
+        if isinstance(pat, ast.MatchClass):
+            cls = self.eval(pat.cls, env, module)
+            if not self.isinstance_v(subject, cls):
+                return False
+            names: List[str] = []
+            if pat.patterns:
+                q = cls.qual if isinstance(cls, RefV) else ""
+                short = q.rsplit(".", 1)[-1]
+                if short in self.schema.classes:
+                    names = [f.name for f in self.schema.classes[short].fields]  # dataclasses: __match_args__ = the fields
+                else:
+                    raise AnalysisError("positional class pattern on a class without known __match_args__", module.loc(pat))
+                if len(pat.patterns) > len(names):
+                    raise _Raise(self.make_exc("builtins.TypeError"), module.loc(pat))
+            for i, sub in enumerate(pat.patterns):
+                if not self.match_pattern(sub, self.getattr_v(subject, names[i], module, pat), env, module):
+                    return False
+            for attr, sub in zip(pat.kwd_attrs, pat.kwd_patterns):
+                if not self.hasattr_v(subject, Const(attr)):
+                    return False
+                if not self.match_pattern(sub, self.getattr_v(subject, attr, module, pat), env, module):
+                    return False
+            return True
+        if isinstance(pat, ast.MatchSequence):
+            items = self.concrete_items(subject)
+            if items is None or isinstance(subject, (Str,)) or (isinstance(subject, Const) and isinstance(subject.v, str)):
+                if isinstance(subject, (NodeV, NewNode, Str)) or (isinstance(subject, Const) and not isinstance(subject.v, (tuple, list))):
+                    return False
+                raise AnalysisError("sequence pattern on a value of unknown length", module.loc(pat))
+            star = [i for i, p in enumerate(pat.patterns) if isinstance(p, ast.MatchStar)]
+            if not star:
+                if len(items) != len(pat.patterns):
+                    return False
+                return all(self.match_pattern(p, v, env, module) for p, v in zip(pat.patterns, items))
+            si = star[0]
+            after = len(pat.patterns) - si - 1
+            if len(items) < len(pat.patterns) - 1:
+                return False
+            for p, v in zip(pat.patterns[:si], items[:si]):
+                if not self.match_pattern(p, v, env, module):
+                    return False
+            if pat.patterns[si].name:
+                env[pat.patterns[si].name] = PyList(items[si:len(items) - after])
+            for p, v in zip(pat.patterns[si + 1:], items[len(items) - after:] if after else []):
+                if not self.match_pattern(p, v, env, module):
+                    return False
+            return True
+        raise AnalysisError(f"pattern {type(pat).__name__} is outside the supported subset", module.loc(pat))
 
     def assign(self, target: ast.expr, v: V, env: Dict[str, V], module: Module):
         if isinstance(target, ast.Name):
@@ -533,9 +691,11 @@ class Interp(ExprMixin, WhileMixin):
     # ------------------------------------------------------------------------------------
     def exec_for(self, st: ast.For, env: Dict[str, V], module: Module):
         it = self.resolve_alt(self.eval(st.iter, env, module))
+        self._broke = False
         self.iterate(it, lambda item: self._for_body(st, item, env, module), module, st)
-        # for-else ignored unless present
-        if st.orelse:
+        broke, self._broke = self._broke, False
+        # the else clause runs only when the loop was not left through `break`
+        if st.orelse and not broke:
             self.exec_block(st.orelse, env, module)
 
     def _for_body(self, st: ast.For, item: V, env, module):
@@ -569,7 +729,7 @@ class Interp(ExprMixin, WhileMixin):
                 for item in list(it.items):
                     body(item)
             except _Break:
-                pass
+                self._broke = True
             return
         # abstract iteration
         if isinstance(it, ListV):
@@ -588,7 +748,7 @@ class Interp(ExprMixin, WhileMixin):
                 for over_, per in it.loop_parts:
                     self._abstract_loop(AltV(per) if len(per) != 1 else per[0], 0, over_, body)
             except _Break:
-                pass
+                self._broke = True
             return
         else:
             elem, minlen, over = Sym("elemof", it), 0, it
@@ -596,7 +756,7 @@ class Interp(ExprMixin, WhileMixin):
         try:
             self._abstract_loop(elem, minlen, over, body)
         except _Break:
-            pass
+            self._broke = True
 
     def _abstract_loop(self, elem: V, minlen: int, over: V, body: Callable[[V], None]):
         known_zero = isinstance(over, ListV) and over.len_eq == 0
